@@ -60,6 +60,9 @@ var c09ErrVals = []c09ErrVal{
 	{"net.OpError ETIMEDOUT", &net.OpError{Op: "read", Net: "tcp", Err: syscall.ETIMEDOUT}},
 	{"os.ErrDeadlineExceeded", os.ErrDeadlineExceeded},
 	{"context.DeadlineExceeded", context.DeadlineExceeded},
+	// a transport with a context of its own (websocket, HTTP) reports its death as "context canceled"
+	// although nothing of the CLIENT's has been cancelled or closed
+	{"wrapped context.Canceled", fmt.Errorf("failed to read: %w", context.Canceled)},
 }
 
 // c09SaysEOF: would a caller take this RecvMsg result for the successful end of the stream?
